@@ -1,21 +1,29 @@
 """C19 Every route the pathfinder returns is payable under all stated constraints (soundness only).
 
 spec/Route:
-  Route.tla       ValidRoute(g, q, r) = the property text clause by clause; BuildRoute = model of newRoute;
+  Route.tla       ValidRoute(g, q, r) = the property text clause by clause (incl. the final-hop payload records and the
+                  1300-byte rule computed from the recorded payload contents); BuildRoute = model of newRoute;
                   state machine NewGraph / Query / Send / Forward / Receive (payment simulation with the
-                  forwarding decision of C09 at every node)
-  RouteMC.tla     exhaustive: over a tiny graph universe and the -1/0/+1 lattice of candidate routes around
-                  every path, ValidRoute => no node refuses (Payable), delivered => per-hop clauses hold
-  RouteGen.tla    tlc -simulate: small multigraphs x requests (tight bounds / limits placed with BuildRoute)
+                  forwarding decision of C09 at every node; the source cannot build an onion that is too large)
+  RouteMC.tla     exhaustive: over tiny graph universes and the -1/0/+1 lattice of candidate routes around
+                  every path, ValidRoute => no node refuses (Payable), delivered => per-hop clauses hold and the
+                  payloads fit; universes small|rich|line4 (first build) + foreign|onion|diamond (follow-up)
+  RouteGen.tla    tlc -simulate: small multigraphs x requests (tight bounds / limits placed with BuildRoute), each
+                  request names its ENTRY POINT (findPath+newRoute, ChannelRouter.FindRoute - also from a foreign
+                  source -, paymentSession.RequestRoute with payload ingredients and multi-part settings)
+  RouteGenD.tla   tlc -simulate: "diamond with tail" graphs (limits bind late in the backward search) x requests in
+                  the onion-size dimension (metadata filling the 1300 bytes for one candidate path +-1)
   RouteTrace.tla  judge of the recorded routes
-Pipeline: MC -> generate graphs+requests -> real graph DB + findPath + newRoute (harness/routing/c19_test.go)
+Pipeline: MC -> generate graphs+requests -> real graph DB + the named entry point (harness/routing/c19_test.go)
           -> TLC trace validation -> negative controls (one corrupted field per ValidRoute clause).
-Integers: all generated amounts <= ~1.2e5 msat and |rates| <= 1e4 ppm, so products stay below 2^31 (TLC).
-Violation keys: route:<clause invariant>:hops<n>[:feelimit][:cltvlimit][:outchans]; the replay dir holds the graph line and
-the offending query (./vcheck C19 --replay <dir> re-judges it).
-Knobs: C19_GRAPHS (graphs per run), C19_SKIP_MC=1, C19_MC_UNIVERSES=small,rich,line4, C19_WORKERS (TLC workers for MC,
-default 4), C19_OVERLAY=rel=patched[,..] or VERIF_MUTATION=<diff> for mutation controls (mutations/C19/*.diff).
+Integers: all generated amounts <= ~1.2e6 msat and |rates| <= 1e4 ppm, so products stay below 2^31 (TLC).
+Violation keys: route:<clause invariant>:[<entry point>:][foreign:]hops<n>[:feelimit][:cltvlimit][:outchans][:meta|:enc]
+[:mpp-total-wider]; the replay dir holds the graph line and the offending query (./vcheck C19 --replay <dir> re-judges it).
+Knobs: C19_GRAPHS (graphs per run), C19_SKIP_MC=1, C19_MC_UNIVERSES=small,rich,line4,foreign,onion,diamond, C19_WORKERS
+(TLC workers for MC, default 4), C19_OVERLAY=rel=patched[,..] or VERIF_MUTATION=<diff> for mutation controls
+(mutations/C19/*.diff).
 """
+import concurrent.futures
 import copy
 import os
 
@@ -41,20 +49,31 @@ def overlay_from_env():
 
 
 # ----------------------------------------------------------------------------- model checking
+PROBES = [("probe", "NoFloorCase"), ("onion", "NoOnionRefusal"), ("onion", "NoFullOnion"),
+          ("foreign", "NoForeignDisabled"), ("foreign", "NoLocalMiddle"), ("diamond", "NoLateLimit")]
+
+
 def model_check(ck):
     thorough = ck.tier == "thorough"
-    universes = ["small"] + (["rich", "line4"] if thorough else [])
+    universes = ["small", "foreign", "onion"] + (["rich", "line4", "diamond"] if thorough else [])
     if os.environ.get("C19_MC_UNIVERSES"):
         universes = os.environ["C19_MC_UNIVERSES"].split(",")
     for u in universes:
         ck.model_check(SPEC, "RouteMC", "RouteMC.cfg", "Route lattice universe=%s" % u,
                        constants={"Universe": '"%s"' % u}, name="mc_" + u, workers=WORKERS, timeout=2400)
     ck.cov["exhaustive"] = True
-    # non-vacuity: a valid, delivered two-hop route on which the per-node fee floor is active must exist
-    r = ck.model_check(SPEC, "RouteMC", "RouteMC_vacuity.cfg", "non-vacuity probe (expected to be violated)",
-                       must_hold=False, name="mc_probe", workers=2, timeout=600)
-    if r.violation != "invariant NoFloorCase":
-        raise Inconclusive("RouteMC is vacuous: no valid delivered route with an active fee floor in the probe universe")
+    # non-vacuity: each probe states that an interesting situation does NOT occur and must be violated:
+    # a delivered two-hop route with an active fee floor; an onion refused for its size; a delivered route
+    # that fills the 1300 bytes exactly; a foreign source's disabled first hop refused; a delivered route
+    # whose second hop is the pathfinding node's own channel; a 4-hop route over its CLTV limit
+    # (quick: the two cheap ones; the onion and diamond probes cost 10-20 s each and run in the thorough tier)
+    probes = PROBES if thorough else [PROBES[0], PROBES[3]]
+    for u, inv in probes:
+        r = ck.model_check(SPEC, "RouteMC", "RouteMC_vacuity.cfg", "non-vacuity probe %s (expected to be violated)" % inv,
+                           must_hold=False, constants={"Universe": '"%s"' % u, "Probe": '"%s"' % inv},
+                           name="mc_probe_" + inv, workers=2, timeout=600)
+        if r.violation != "invariant ProbeInv":
+            raise Inconclusive("RouteMC is vacuous: probe %s is not violated in universe %s" % (inv, u))
 
 
 # ----------------------------------------------------------------------------- negative controls
@@ -65,13 +84,15 @@ def _pol(graph, cid, frm):
     return None
 
 
-def _first(recs, pred):
+def _first(recs, pred, vias=("findPath",), foreign=False):
     """index of the first answered Query (route found) for which pred(query record, graph) holds"""
     graph = None
     for i, r in enumerate(recs):
         if is_reset(r):
             graph = r["graph"]
-        elif r.get("a") == "Query" and r["res"]["found"] == 1 and not r["req"]["hints"] and pred(r, graph):
+        elif r.get("a") == "Query" and r["res"]["found"] == 1 and not r["req"]["hints"] \
+                and r["req"]["via"] in vias and (r["req"]["src"] != r["req"]["self"]) == foreign \
+                and not r.get("_rejected") and pred(r, graph):
             return i
     return None
 
@@ -156,6 +177,51 @@ def controls(recs):
             back = _pol(g["graph"], q["res"]["hops"][0]["chan"], q["res"]["hops"][0]["to"])
             back["inBase"], back["inRate"] = 1000, 0
         out.append(("inbound-discount-to-surcharge", "SoundFeesPaid", one(i, m)))
+    # --- follow-up b19d: entry points, foreign source, final-hop payload, onion size
+    # 10. the invoice's metadata is one byte longer than what the last hop carries (FinalPayload)
+    i = _first(recs, lambda r, g: r["req"]["meta"] >= 0, vias=("RequestRoute",))
+    if i is not None:
+        def m(q, g):
+            q["req"]["meta"] += 1
+        out.append(("req.meta+1", "SoundFinalPayload", one(i, m)))
+    # 11. a recorded payload size (oracle) one byte off what the payload contents give (size model)
+    i = _first(recs, lambda r, g: r["res"]["packed"] == 1, vias=("RequestRoute", "FindRoute"))
+    if i is not None:
+        def m(q, g):
+            q["res"]["hops"][0]["size"] += 1
+        out.append(("hop1.size+1", "SizeModelAgrees", one(i, m)))
+    # 12. metadata (request, last hop and its size alike) grown until the payloads need 1301 bytes (PayloadFits)
+    def big(r, g):
+        tot = sum(h["size"] for h in r["res"]["hops"])
+        return 253 <= r["req"]["meta"] and r["res"]["packed"] == 1 and tot <= 1300 and r["req"]["meta"] + 1301 - tot < 60000
+    i = _first(recs, big, vias=("RequestRoute",))
+    if i is not None:
+        def m(q, g):
+            d = 1301 - sum(h["size"] for h in q["res"]["hops"])
+            q["req"]["meta"] += d
+            q["res"]["hops"][-1]["meta"] += d
+            q["res"]["hops"][-1]["size"] += d
+        out.append(("meta-grown-to-1301-bytes", "SoundPayload", one(i, m)))
+    # 13. the first hop of a FOREIGN source disabled (Connected; the same bit on the pathfinding node's own
+    #     first hop is not an objection - that is what control 7 leaves alone and the traces contain)
+    i = _first(recs, lambda r, g: True, vias=("FindRoute",), foreign=True)
+    if i is not None:
+        def m(q, g):
+            _pol(g["graph"], q["res"]["hops"][0]["chan"], q["req"]["src"])["disabled"] = 1
+        out.append(("foreign-hop1-disabled", "SoundConnected", one(i, m)))
+    # 14. the payment session answers with half the amount although the payment may not be split (Final)
+    def whole(r, g):
+        q = r["req"]
+        return q["maxParts"] == 1 and q["amt"] % 2 == 0 and q["amt"] >= 4 and not (0 < q["maxShard"] < q["amt"]) \
+            and len(r["res"]["hops"]) == 1 and hop1(r, g)["minHtlc"] <= q["amt"] // 2
+    i = _first(recs, whole, vias=("RequestRoute",))
+    if i is not None:
+        def m(q, g):
+            half = q["req"]["amt"] // 2
+            s = q["res"]
+            s["hops"][0]["amt"] = half
+            s["totalAmt"] = s["recvAmt"] = half
+        out.append(("unsplittable-halved", "SoundFinal", one(i, m)))
     return out
 
 
@@ -163,11 +229,20 @@ def negative_controls(ck, recs, quick):
     cs = controls(recs)
     if len(cs) < 6:
         raise Inconclusive("too few routes for the negative controls (%d)" % len(cs))
-    done = []
-    for name, inv, tr in cs:
+    missing = {"req.meta+1", "hop1.size+1", "meta-grown-to-1301-bytes", "foreign-hop1-disabled"} - {c[0] for c in cs}
+    if missing:
+        raise Inconclusive("no recorded route for the negative controls %s" % sorted(missing))
+    def check(c):
+        name, inv, tr = c
         p = os.path.join(ck.out, "control_%s.ndjson" % name.replace("=", "_"))
         core.write_ndjson(p, tr)
-        v = ck.validate(SPEC, "RouteTrace", "RouteTrace.cfg", p, name="control_" + name.replace("=", "_"))
+        return ck.validate(SPEC, "RouteTrace", "RouteTrace.cfg", p, name="control_" + name.replace("=", "_"))
+
+    # the controls are independent two-line traces: validated four at a time
+    with concurrent.futures.ThreadPoolExecutor(max_workers=4) as ex:
+        results = list(ex.map(check, cs))
+    done = []
+    for (name, inv, tr), v in zip(cs, results):
         if v["ok"]:
             raise Inconclusive("negative control %s accepted: trace validation is not binding" % name)
         if v["invariant"] != "invariant " + inv:
@@ -186,12 +261,13 @@ def run(ck):
     ngraphs = int(os.environ.get("C19_GRAPHS", "2500" if thorough else "500"))
     nq = 10 if thorough else 8
     files = []
-    # both node counts: 3 nodes make parallel channels frequent, 4 nodes give 3-hop routes
-    for nn, share in ((4, 0.6), (3, 0.4)):
+    # both node counts: 3 nodes make parallel channels frequent, 4 nodes give 3-hop routes; the diamond family
+    # (RouteGenD) gives 3-5 hop routes with late-binding limits and the onion-size dimension
+    for mod, nn, share in (("RouteGen", 4, 0.42), ("RouteGen", 3, 0.28), ("RouteGenD", 0, 0.3)):
         n = max(1, int(ngraphs * share))
-        fs = ck.generate(SPEC, "RouteGen", "RouteGen.cfg", n, 30,
-                         constants={"NN": nn, "MaxChans": 6 if nn == 4 else 5, "NQ": nq},
-                         name="gen_nn%d" % nn, timeout=1800)
+        consts = {"NN": nn or 4, "MaxChans": 6 if nn != 3 else 5, "NQ": nq}
+        fs = ck.generate(SPEC, mod, mod + ".cfg", n, 30, constants=consts,
+                         name="gen_%s_nn%d" % (mod, nn), timeout=1800)
         # one schedule directory for the executor
         files += fs
     sched = os.path.join(ck.out, "sched")
@@ -214,8 +290,9 @@ def run(ck):
         raise Inconclusive("only %d routes for %d requests: the generator does not exercise the pathfinder" % (
             len(routes), len(queries)))
 
-    ok = judge(ck, recs, trace)
-    if ok:
+    judge(ck, recs, trace)
+    if not ck.violations:
+        # (rejections that are known findings do not stand in the way of the controls)
         negative_controls(ck, recs, not thorough)
 
     # measured diversity of what was judged
@@ -223,74 +300,193 @@ def run(ck):
     shapes = {}
     for r in routes:
         q, s = r["req"], r["res"]
-        k = (len(s["hops"]), q["src"] == q["dst"], bool(q["hints"]), q["feeLimit"] >= 0, q["cltvLimit"] >= 0, bool(q["outChans"]),
+        k = (q["via"], q["src"] != q["self"], len(s["hops"]), q["src"] == q["dst"], bool(q["hints"]), q["feeLimit"] >= 0,
+             q["cltvLimit"] >= 0, bool(q["outChans"]),
              q["lastHop"] != "", bool(q["ignNodes"]), bool(q["ignPairs"]),
-             q["feeLimit"] == s["totalFees"], q["cltvLimit"] == s["totalTL"] - q["height"])
+             q["feeLimit"] == s["totalFees"], q["cltvLimit"] == s["totalTL"] - q["height"],
+             q["payAddr"], q["meta"] >= 0, bool(q["recs"]), q["enc"] >= 0, s["hops"][-1]["amt"] != q["amt"])
         shapes[k] = shapes.get(k, 0) + 1
-        classes.add(core.sha(str((q, s["hops"]))))
+        classes.add(core.sha(str((q, [{f: h[f] for f in ("chan", "to", "amt", "tl")} for h in s["hops"]]))))
+    size = lambda r: sum(h["size"] for h in r["res"]["hops"])
     ck.cov["distinct_nontrivial"] = len(classes)
     ck.cov["route_shapes"] = len(shapes)
-    ck.cov["by_hops"] = {str(n): sum(1 for r in routes if len(r["res"]["hops"]) == n) for n in range(1, 6)}
+    ck.cov["by_hops"] = {str(n): sum(1 for r in routes if len(r["res"]["hops"]) == n) for n in range(1, 7)}
+    ck.cov["by_entry_point"] = {v: [sum(1 for r in queries if r["req"]["via"] == v),
+                                    sum(1 for r in routes if r["req"]["via"] == v)]
+                                for v in ("findPath", "FindRoute", "RequestRoute", "BuildRoute")}
+    ck.cov["by_family"] = {}
+    fam = "rand"
+    for r in recs:
+        if is_reset(r):
+            fam = r.get("fam", "rand")
+            ck.cov["by_family"][fam] = ck.cov["by_family"].get(fam, 0) + 1
     ck.cov["tight"] = dict(
         fee_limit_exact=sum(1 for r in routes if r["req"]["feeLimit"] == r["res"]["totalFees"]),
         cltv_limit_exact=sum(1 for r in routes if r["req"]["cltvLimit"] == r["res"]["totalTL"] - r["req"]["height"]),
         self_payment=sum(1 for r in routes if r["req"]["src"] == r["req"]["dst"]),
         out_chan_restricted=sum(1 for r in routes if r["req"]["outChans"]),
         via_route_hint=sum(1 for r in routes if r["req"]["hints"]),
-        floor_active=sum(1 for r in routes if any(h["fee"] == 0 for h in r["res"]["hops"][:-1])))
+        floor_active=sum(1 for r in routes if any(h["fee"] == 0 for h in r["res"]["hops"][:-1])),
+        foreign_source=sum(1 for r in routes if r["req"]["src"] != r["req"]["self"]),
+        foreign_route_through_own_node=sum(1 for r in routes if r["req"]["src"] != r["req"]["self"]
+                                           and any(h["to"] == r["req"]["self"] for h in r["res"]["hops"][:-1])),
+        onion_1290_to_1300_bytes=sum(1 for r in routes if 1290 <= size(r) <= 1300),
+        onion_exactly_1300_bytes=sum(1 for r in routes if size(r) == 1300),
+        with_metadata=sum(1 for r in routes if r["req"]["meta"] >= 0),
+        with_payment_secret=sum(1 for r in routes if r["req"]["payAddr"] == 1),
+        mpp_total_wider_than_shard=sum(1 for r in routes if r["res"]["hops"][-1]["mpp"] > r["res"]["hops"][-1]["amt"]),
+        blinded_intro_only=sum(1 for r in routes if r["req"]["enc"] >= 0),
+        shard_clamped=sum(1 for r in routes if 0 < r["req"]["maxShard"] < r["req"]["amt"]),
+        shard_halved=sum(1 for r in routes if r["res"]["hops"][-1]["amt"] < r["req"]["amt"]
+                         and not 0 < r["req"]["maxShard"] < r["req"]["amt"]))
     ck.cov["traces_validated_against_impl"] = ck.cov["graphs"]
     ck.cov["rule"] = ("graphs x requests generated by TLC -simulate from RouteGen (3-4 nodes, 2-6 channels, parallel channels, "
                       "missing/disabled directions, signed inbound fees, bounds and limits placed at / next to what a path "
-                      "needs), answered by the real findPath+newRoute on the fixture's graph DB (with and without graph "
-                      "cache); evaluations = requests answered; distinct = distinct (request, returned hops) pairs among "
-                      "the returned routes (all non-trivial: each is judged by the 10 clauses of ValidRoute and paid "
-                      "through hop by hop)")
+                      "needs; one graph in five asked from a foreign source) and RouteGenD (diamond-with-tail graphs of 5-8 "
+                      "nodes, limits between the candidates' needs, final-hop payload sized to fill the 1300 onion bytes "
+                      "of one candidate +-1), answered by the real entry point each request names - findPath+newRoute, "
+                      "ChannelRouter.FindRoute, paymentSession.RequestRoute (via SessionSource.NewPaymentSession), "
+                      "ChannelRouter.BuildRoute - on the fixture's graph DB (with and without graph cache); evaluations = "
+                      "requests answered; distinct = distinct (request, returned hops) pairs among the returned routes "
+                      "(all non-trivial: each is judged by the 11 clauses of ValidRoute plus the size-model agreement and "
+                      "paid through hop by hop)")
     if routes:
         ck.cov["samples"] += [routes[0], routes[len(routes) // 2]]
     ck.cov["trusted_base"] = ["TLC 1.8.0", "CommunityModules Json",
                               "routing test fixture createTestGraphFromChannels / mockBandwidthHints",
-                              "executor projection of route.Route (field copies, HopFee/TotalFees/ReceiverAmt, "
-                              "sphinx TotalPayloadSize)",
+                              "executor projection of route.Route (field copies, HopFee/TotalFees/ReceiverAmt, payload "
+                              "records of every hop); oracles: sphinx HopPayload.NumBytes of the serialized payloads, "
+                              "sphinx.NewOnionPacket",
+                              "mission control replaced by probability 1 / 0 for ignored nodes and pairs; bandwidth = "
+                              "mockLink.Bandwidth of the own channels through the real bandwidth manager",
                               "translation of restrictions as in lnrpc/routerrpc (cltv limit minus final delta; "
                               "ignored nodes/pairs as probability 0) is replicated in the executor"]
-    ck.assumptions += ["probabilities fixed to 1 (no mission control); source = self; route hints as private edges; no blinded tails",
-                       "amounts <= ~1.2e5 msat, |fee rates| <= 1e4 ppm (32-bit TLC integers); 64-bit fee arithmetic is C09's subject",
+    ck.assumptions += ["probabilities fixed to 1 (no mission control); route hints as private edges; blinded tails only as an "
+                       "introduction-node-only path (no blinded hops behind the introduction node); no AMP",
+                       "amounts <= ~1.2e6 msat, |fee rates| <= 1e4 ppm (32-bit TLC integers); 64-bit fee arithmetic is C09's subject",
+                       "the payment session's smallest shard (a constant, 10k sat) is scaled down with the amounts",
                        "ignored nodes never contain the source or the target",
                        "soundness only: nothing is claimed about requests answered with 'no route'"]
 
 
+def _tu(v):
+    """bytes of a truncated unsigned integer (BOLT 1 tu64)"""
+    n = 0
+    while v > 0:
+        n, v = n + 1, v >> 8
+    return n
+
+
+def _bigsize(x):
+    return 1 if x < 253 else 3 if x < 65536 else 5
+
+
+def _rec(t, n):
+    return _bigsize(t) + _bigsize(n) + n
+
+
+def violation_key(inv, graph_line, q, s):
+    """route:<invariant>:[<family>:][<entry point>:][foreign:]hops<n>[:feelimit][:cltvlimit][:outchans][:meta|:enc]
+    [:<payload class>] - the history / input class of the rejected route (no judgement here: TLC rejected it)."""
+    hops = s.get("hops", [])
+    parts = []
+    if graph_line.get("fam", "rand") != "rand":
+        parts.append(graph_line["fam"])
+    if q.get("via", "findPath") != "findPath":
+        parts.append(q["via"])
+    if q.get("src") != q.get("self", q.get("src")):
+        parts.append("foreign")
+    parts.append("hops%d" % len(hops))
+    if q.get("feeLimit", -1) >= 0:
+        parts.append("feelimit")
+    if q.get("cltvLimit", -1) >= 0:
+        parts.append("cltvlimit")
+    if q.get("outChans"):
+        parts.append("outchans")
+    if q.get("meta", -1) >= 0:
+        parts.append("meta")
+    if q.get("enc", -1) >= 0:
+        parts.append("enc")
+    if inv == "SoundPayload" and hops and s.get("packed") == 1 and sum(h["size"] for h in hops) > 1300:
+        # Which records of the FINAL hop's payload explain the excess over the 1300 bytes: the class is named only
+        # when the real serialized sizes, with exactly those records taken out of the last payload, fit - so a
+        # different payload-size defect (anything else missing from the estimate) never gets one of these names.
+        last = hops[-1]
+        rest = sum(h["size"] for h in hops[:-1])
+        blinded = q.get("enc", -1) >= 0 and last["enc"] >= 0
+        tot_rec = _rec(18, _tu(last["tot"])) if last["tot"] else 0
+        if blinded and q.get("via") == "RequestRoute" and rest + _payload_without(
+                last["size"], _rec(10, last["enc"]) + (_rec(12, 33) if last["bp"] else 0) + tot_rec) <= 1300:
+            parts.append("blinded-final-unestimated")
+        elif blinded and q.get("via") == "FindRoute" and rest + _payload_without(
+                last["size"], tot_rec + sum(_rec(r["t"], r["n"]) for r in last["recs"])) <= 1300:
+            parts.append("blinded-total-recs-unestimated")
+        elif not blinded and q.get("via") == "RequestRoute" and last["mpp"] >= 0 and _tu(last["mpp"]) > _tu(last["amt"]) \
+                and rest + _payload_without(last["size"], _tu(last["mpp"]) - _tu(last["amt"])) <= 1300:
+            parts.append("mpp-total-wider")
+    return "route:%s:%s" % (inv, ":".join(parts))
+
+
+def _payload_without(size, omitted):
+    """size of a hop payload in the onion (length prefix + TLV stream + 32 byte HMAC) with `omitted` bytes fewer"""
+    stream = size - 32 - 1 if size - 33 < 253 else size - 32 - 3
+    stream -= omitted
+    return _bigsize(stream) + stream + 32
+
+
+def is_known(ck, key):
+    return any(f.get("property") == ck.pid and f.get("kind") == "finding" and core.key_matches(f.get("key", ""), key)
+               for f in ck.findings)
+
+
+def judge_batch(ck, bi, batch):
+    """Validate one batch; returns the rejected queries as (key, what, trace file, counterexample).  A trace is a
+    chain of states, so a rejection at line L means that everything before L was accepted: the validation
+    continues with the graph line and what follows the rejected query.  Stops after 3 rejections that are not
+    known findings."""
+    out, new, rounds = [], 0, 0
+    while batch and new < 3 and rounds < 80:
+        rounds += 1
+        p = os.path.join(ck.out, "batch_%d.ndjson" % bi)
+        core.write_ndjson(p, batch)
+        v = ck.validate(SPEC, "RouteTrace", "RouteTrace.cfg", p, name="val_%d" % bi, timeout=2400)
+        if v["ok"]:
+            break
+        line = min(v["line"] or 1, len(batch))
+        a, b = core.slice_trace(batch, line, is_reset)
+        bad = batch[line - 1]
+        bad["_rejected"] = 1
+        one = os.path.join(ck.out, "failing_trace_%d_%d.ndjson" % (bi, rounds))
+        # the graph and the single offending query
+        core.write_ndjson(one, [batch[a], {k: x for k, x in bad.items() if k != "_rejected"}]
+                          if bad is not batch[a] else [batch[a]])
+        inv = (v["invariant"] or "").replace("invariant ", "")
+        q, s = bad.get("req", {}), bad.get("res", {})
+        key = violation_key(inv, batch[a], q, s)
+        out.append((key, "route returned by %s is rejected by spec/Route (%s): req=%s res=%s" % (
+            q.get("via", "the pathfinder"), inv, str(q)[:500], str(s)[:900]), one, v["cex"]))
+        if not is_known(ck, key):
+            new += 1
+        # continue behind the rejected query (the graph itself when its own line was rejected)
+        batch = batch[b:] if bad is batch[a] else [batch[a]] + batch[line:]
+    return out
+
+
 def judge(ck, recs, trace):
-    """Validate the recorded trace in batches; report every failing graph (up to 5)."""
-    ok = True
-    batches = core.split_batches(recs, is_reset, max_bytes=6_000_000)
+    """Validate the recorded trace in small batches, four at a time; report every rejected query (known findings
+    as KNOWN-FINDING lines, at most 5 others as violations)."""
+    batches = core.split_batches(recs, is_reset, max_bytes=700_000)
+    with concurrent.futures.ThreadPoolExecutor(max_workers=4) as ex:
+        results = list(ex.map(lambda t: judge_batch(ck, t[0], t[1]), enumerate(batches)))
     reported = 0
-    for bi, batch in enumerate(batches):
-        while batch and reported < 5:
-            p = os.path.join(ck.out, "batch_%d.ndjson" % bi)
-            core.write_ndjson(p, batch)
-            v = ck.validate(SPEC, "RouteTrace", "RouteTrace.cfg", p, name="val_%d" % bi, timeout=2400)
-            if v["ok"]:
-                break
-            ok = False
-            line = v["line"] or 1
-            a, b = core.slice_trace(batch, line, is_reset)
-            bad = batch[min(line - 1, len(batch) - 1)]
-            one = os.path.join(ck.out, "failing_trace_%d.ndjson" % (reported + 1))
-            # the graph and the single offending query
-            core.write_ndjson(one, [batch[a], bad] if bad is not batch[a] else [batch[a]])
-            inv = (v["invariant"] or "").replace("invariant ", "")
-            q, s = bad.get("req", {}), bad.get("res", {})
-            shape = "hops%d%s%s%s" % (len(s.get("hops", [])),
-                                      ":feelimit" if q.get("feeLimit", -1) >= 0 else "",
-                                      ":cltvlimit" if q.get("cltvLimit", -1) >= 0 else "",
-                                      ":outchans" if q.get("outChans") else "")
-            ck.violation("route:%s:%s" % (inv, shape),
-                         "route returned by findPath+newRoute is rejected by spec/Route (%s), line %s: req=%s res=%s" % (
-                             inv, line, str(q)[:400], str(s)[:600]),
-                         files={"trace.ndjson": one}, text=v["cex"])
+    rejected = [r for res in results for r in res]
+    ck.cov["rejected_queries"] = len(rejected)
+    for key, what, one, cex in rejected:
+        if reported >= 5 and not is_known(ck, key):
+            continue
+        if ck.violation(key, what, files={"trace.ndjson": one}, text=cex):
             reported += 1
-            batch = batch[:a] + batch[b:]      # drop the offending graph, continue with the rest
-    return ok
+    return not rejected
 
 
 def replay(ck):
